@@ -201,6 +201,8 @@ class ScratchStore(Expr):
                 )
             require_type(index_expression, TealType.uint64)
 
+        require_type(value, TealType.anytype)
+
         self.slot = slot
         self.value = value
         self.index_expression = index_expression
